@@ -1,16 +1,23 @@
 /* C09 harness: the working tree's threadpool.c on the cooperative scheduler.
  *
  * stdin, one case per line:
- *   <caseid> <nworkers> <prog> <fails> dfs <preempt> <spurious> <maxexec> [<statecache 0|1>]
+ *   <caseid> <nworkers> <prog> <fails> dfs <preempt> <spurious> <maxexec> [<statecache 0|1> [<maxfine>]]
  *       (bound 99 = unbounded; with the state cache an execution that reaches an already
- *        explored (state, last thread, budgets) stops there: verdict STOPPED)
- *   <caseid> <nworkers> <prog> <fails> run <schedule>
- *   <caseid> <nworkers> <prog> <fails> rand <seed> <count> <spur_permille> <spur_budget>
+ *        explored (state, last thread, budgets) stops there: verdict STOPPED;
+ *        maxfine = number of FINE pre-emptions per execution: a thread is stopped at the entry of
+ *        cond_wait (mutex still held, not yet a waiter), at the entry of cond_broadcast/signal, or right
+ *        after mutex_unlock, and the other threads run before it continues — see shim_sched.h)
+ *   <caseid> <nworkers> <prog> <fails> run <schedule>        (tokens 3 | 3f | s3)
+ *   <caseid> <nworkers> <prog> <fails> rand <seed> <count> <spur_permille> <spur_budget> [<fine_permille> <fine_budget>]
  * prog  : S = submit the next item (ids 0,1,2.. in order), D = dequeue, G = get_status,
  *         X = destroy (must be last; appended if missing)
  * fails : "-" or "id:status,id:status" (callback return value for these items)
  * stdout, one line per execution:
  *   E <caseid> <nworkers> <prog> <fails> | <schedule> | <verdict> <tracehash>
+ *   P ... (same fields) for an execution with at least one fine pre-emption token: it has no counterpart
+ *       in the model's step granularity and is judged by the oracles only
+ *   L <caseid> <nworkers> <prog> <fails> | <schedule> | <what>     lock discipline violated in that execution
+ *       (first few per case; "N <caseid> discipline-violations=<n>" gives the count)
  * with -v additionally every trace line ("T ...") before its E line.
  * Trace line: <who> <event> <pool state> T=<thread letters>   (see NOTES.md)
  */
@@ -26,7 +33,6 @@
 #define MAX_ITEMS 32
 #define MAX_W 8
 #define MAX_DEPTH 512
-#define MAX_OPTS (2 * SHIM_MAX_THREADS)
 
 typedef struct {
 	int id;
@@ -59,6 +65,54 @@ static size_t sched_len;
 static char last_T[64];
 static char sig_buf[1400];	/* abstract state after the last step (DFS state cache key) */
 static int last_item[MAX_W + 1];
+static int used_fine;		/* the schedule contains a fine pre-emption token */
+static long n_discipline, n_discipline_printed;
+
+/* ---- lock-discipline oracle: what the shim compares between the shim operations of a thread ----
+ * part 0: everything of the pool that workers and the submitter share: may only change while the
+ *         changing thread holds pool->mtx;
+ * part 1: the lists and the counter that belong to the submitting thread alone (threadpool.h: only
+ *         one thread calls the API): may be touched without the lock, but by thread 0 only. */
+static uint64_t mixh(uint64_t h, uint64_t x)
+{
+	h ^= x;
+	h *= 0x100000001b3ULL;
+	return h ^ (h >> 29);
+}
+
+static uint64_t hash_list(uint64_t h, const work_item_t *l)
+{
+	int n = 0;
+
+	for (; l != NULL && n < 4 * MAX_ITEMS; l = l->next, ++n) {
+		h = mixh(h, (uint64_t)(uintptr_t)l);
+		h = mixh(h, (uint64_t)l->ticket_number);
+		h = mixh(h, (uint64_t)(uintptr_t)l->data);
+	}
+	return mixh(h, (uint64_t)n);
+}
+
+static unsigned long long pool_snap(void *ud, int part)
+{
+	const thread_pool_impl_t *p = (const thread_pool_impl_t *)pool;
+	uint64_t h = 0xcbf29ce484222325ULL;
+	(void)ud;
+
+	if (part == 0) {
+		h = mixh(h, (uint64_t)p->status);
+		h = mixh(h, (uint64_t)p->next_ticket);
+		h = mixh(h, (uint64_t)p->next_dequeue_ticket);
+		h = mixh(h, (uint64_t)(uintptr_t)p->queue_last);
+		h = hash_list(h, p->queue);
+		h = hash_list(h, p->done);
+	} else {
+		h = mixh(h, (uint64_t)p->item_count);
+		h = mixh(h, (uint64_t)(uintptr_t)p->safe_done_last);
+		h = hash_list(h, p->safe_done);
+		h = hash_list(h, p->recycle);
+	}
+	return h;
+}
 
 static void oracle_fail(const char *what)
 {
@@ -217,6 +271,9 @@ static void fmt_threads(char *out, size_t cap)
 		case SHIM_T_WOKEN: c = 'K'; break;
 		case SHIM_T_JOIN: c = 'J'; break;
 		case SHIM_T_EXITED: c = 'X'; break;
+		case SHIM_T_FINE:
+			c = v.fine_kind[i] == SHIM_F_PREWAIT ? 'a' : v.fine_kind[i] == SHIM_F_PRESIGNAL ? 'b' : 'u';
+			break;
 		}
 		out[n++] = c;
 		if (c == 'J')
@@ -243,9 +300,11 @@ static void hook(int kind, int tid, void *ud)
 		} else if (tid <= MAX_W && cb_ev[tid][0]) {
 			ev = cb_ev[tid];
 		}
-		n += snprintf(line + n, sizeof(line) - n, "%d %s ", tid, ev);
-		sched_len += snprintf(sched_buf + sched_len, sizeof(sched_buf) - sched_len, "%s%d",
-				      sched_len ? "," : "", tid);
+		n += snprintf(line + n, sizeof(line) - n, "%d%s %s ", tid, kind == SHIM_RUN_FINE ? "f" : "", ev);
+		sched_len += snprintf(sched_buf + sched_len, sizeof(sched_buf) - sched_len, "%s%d%s",
+				      sched_len ? "," : "", tid, kind == SHIM_RUN_FINE ? "f" : "");
+		if (kind == SHIM_RUN_FINE)
+			used_fine = 1;
 	}
 	if (pool_alive) {
 		thread_pool_impl_t *p = (thread_pool_impl_t *)pool;
@@ -263,7 +322,7 @@ static void hook(int kind, int tid, void *ud)
 	fmt_threads(last_T, sizeof(last_T));
 	n += snprintf(line + n, sizeof(line) - n, " T=%s", last_T);
 	main_ev[0] = '\0';
-	if (kind == SHIM_RUN && tid >= 1 && tid <= MAX_W)
+	if (kind != SHIM_SPURIOUS && tid >= 1 && tid <= MAX_W)
 		cb_ev[tid][0] = '\0';
 	{
 		/* everything the future of the execution can depend on */
@@ -286,20 +345,29 @@ static void hook(int kind, int tid, void *ud)
 		printf("T %s\n", line);
 }
 
-/* ---- choosers: DFS with pre-emption / spurious bounds; recorded wrapper ---- */
+/* ---- choosers: DFS with pre-emption / spurious / fine-pre-emption bounds ---- */
+
+#define MAX_OPTS (3 * SHIM_MAX_THREADS)
 
 typedef struct {
 	int nopt;
 	shim_choice_t opt[MAX_OPTS];
-	int cp[MAX_OPTS], cs[MAX_OPTS];
+	int cp[MAX_OPTS], cs[MAX_OPTS], cf[MAX_OPTS];
 	int idx;
-	int used_p, used_s;	/* budget used before this choice */
+	int used_p, used_s, used_f;	/* budget used before this choice */
+	uint64_t key;			/* hash of this scheduling point (state cache key) */
+	/* a thread stopped at a fine point: its local state is not part of the abstract state, but it is
+	 * determined by the scheduling point it was last resumed at (fine_parent = key of that point: an
+	 * ordinary one, or its previous fine point) since it ran alone from there to here */
+	int fine_tid;
+	uint64_t fine_parent;
+	int fine_j;
 } dfs_frame_t;
 
 static dfs_frame_t frames[MAX_DEPTH];
-static int dfs_depth, dfs_prefix, dfs_bound_p, dfs_bound_s;
+static int dfs_depth, dfs_prefix, dfs_bound_p, dfs_bound_s, dfs_bound_f;
 static int dfs_overflow, dfs_cache;
-static long dfs_pruned, dfs_states;
+static long dfs_pruned, dfs_states, dfs_fine_states;
 
 #define VIS_BITS 23
 static uint64_t *vis;
@@ -325,9 +393,9 @@ static int visited_test_and_set(uint64_t h)
 
 static shim_choice_t dfs_chooser(const shim_view_t *v, void *ud)
 {
-	dfs_frame_t *f;
+	dfs_frame_t *f, *g = NULL;
 	shim_choice_t stop = { SHIM_STOP, -1 };
-	int k = dfs_depth, i, up, us;
+	int k = dfs_depth, i, up, us, uf, ft = -1;
 	(void)ud;
 
 	if (k >= MAX_DEPTH) {
@@ -336,31 +404,60 @@ static shim_choice_t dfs_chooser(const shim_view_t *v, void *ud)
 	}
 	f = &frames[k];
 	if (k == 0) {
-		up = us = 0;
+		up = us = uf = 0;
 	} else {
-		dfs_frame_t *g = &frames[k - 1];
+		g = &frames[k - 1];
 		up = g->used_p + g->cp[g->idx];
 		us = g->used_s + g->cs[g->idx];
+		uf = g->used_f + g->cf[g->idx];
 	}
-	if (k >= dfs_prefix && dfs_cache) {
-		char key[1500];
+	if (k >= dfs_prefix) {
+		char key[1600];
 		uint64_t h = 0xcbf29ce484222325ULL;
 		const char *q;
 
-		snprintf(key, sizeof(key), "%s|%d|%d|%d", k == 0 ? "init" : sig_buf,
+		for (i = 0; i < v->nthreads; ++i)
+			if (v->state[i] == SHIM_T_FINE)
+				ft = i;
+		f->fine_tid = ft;
+		f->fine_parent = 0;
+		f->fine_j = 0;
+		if (g != NULL && g->opt[g->idx].kind == SHIM_RUN_FINE && ft != g->opt[g->idx].tid) {
+			/* the thread met no fine point before its next ordinary yield point: this execution
+			 * is the one the SHIM_RUN option of the same thread produces */
+			dfs_pruned++;
+			return stop;
+		}
+		if (ft >= 0 && g != NULL) {
+			if (g->fine_tid == ft && !(g->opt[g->idx].kind == SHIM_RUN_FINE && g->opt[g->idx].tid == ft)) {
+				/* another thread moved while ft stays where it is */
+				f->fine_parent = g->fine_parent;
+				f->fine_j = g->fine_j;
+			} else {
+				/* ft ran from the scheduling point g (ordinary, or its previous fine point) to here */
+				f->fine_parent = g->key;
+				f->fine_j = g->fine_tid == ft ? g->fine_j + 1 : 1;
+			}
+		}
+		snprintf(key, sizeof(key), "%s|%d|%d|%d|%d|%d|%llx|%d", k == 0 ? "init" : sig_buf,
 			 dfs_bound_p >= UNBOUNDED ? 0 : v->last, dfs_bound_p >= UNBOUNDED ? 0 : up,
-			 dfs_bound_s >= UNBOUNDED ? 0 : us);
+			 dfs_bound_s >= UNBOUNDED ? 0 : us, uf, ft, (unsigned long long)f->fine_parent, f->fine_j);
 		for (q = key; *q; ++q) {
 			h ^= (unsigned char)*q;
 			h *= 0x100000001b3ULL;
 		}
-		if (visited_test_and_set(h)) {
-			dfs_pruned++;
-			return stop;
-		}
-		if (++dfs_states > ((long)3 << (VIS_BITS - 2))) {
-			dfs_overflow = 1;
-			return stop;
+		f->key = h;
+		if (dfs_cache) {
+			if (visited_test_and_set(h)) {
+				dfs_pruned++;
+				return stop;
+			}
+			if (ft >= 0)
+				dfs_fine_states++;
+			if (++dfs_states > ((long)3 << (VIS_BITS - 2))) {
+				dfs_overflow = 1;
+				return stop;
+			}
 		}
 	}
 	if (k >= dfs_prefix) {
@@ -369,11 +466,13 @@ static shim_choice_t dfs_chooser(const shim_view_t *v, void *ud)
 		f->nopt = 0;
 		f->used_p = up;
 		f->used_s = us;
+		f->used_f = uf;
 		if (last_ok) {
 			f->opt[f->nopt].kind = SHIM_RUN;
 			f->opt[f->nopt].tid = v->last;
 			f->cp[f->nopt] = 0;
 			f->cs[f->nopt] = 0;
+			f->cf[f->nopt] = 0;
 			f->nopt++;
 		}
 		for (i = 0; i < v->nthreads; ++i) {
@@ -385,6 +484,7 @@ static shim_choice_t dfs_chooser(const shim_view_t *v, void *ud)
 			f->opt[f->nopt].tid = i;
 			f->cp[f->nopt] = (last_ok && dfs_bound_p < UNBOUNDED) ? 1 : 0;
 			f->cs[f->nopt] = 0;
+			f->cf[f->nopt] = 0;
 			f->nopt++;
 		}
 		if (dfs_bound_s >= UNBOUNDED || us + 1 <= dfs_bound_s) {
@@ -395,6 +495,25 @@ static shim_choice_t dfs_chooser(const shim_view_t *v, void *ud)
 				f->opt[f->nopt].tid = i;
 				f->cp[f->nopt] = 0;
 				f->cs[f->nopt] = dfs_bound_s < UNBOUNDED ? 1 : 0;
+				f->cf[f->nopt] = 0;
+				f->nopt++;
+			}
+		}
+		/* fine pre-emptions: stop thread i at its next fine point.  One thread at a time: while a
+		 * thread is stopped at a fine point only that thread may be sent to its next fine point. */
+		if (uf + 1 <= dfs_bound_f) {
+			for (i = 0; i < v->nthreads; ++i) {
+				int pre = last_ok && i != v->last;
+
+				if (!v->runnable[i] || (ft >= 0 && i != ft) || v->state[i] == SHIM_T_JOIN)
+					continue;
+				if (pre && dfs_bound_p < UNBOUNDED && up + 1 > dfs_bound_p)
+					continue;
+				f->opt[f->nopt].kind = SHIM_RUN_FINE;
+				f->opt[f->nopt].tid = i;
+				f->cp[f->nopt] = (pre && dfs_bound_p < UNBOUNDED) ? 1 : 0;
+				f->cs[f->nopt] = 0;
+				f->cf[f->nopt] = 1;
 				f->nopt++;
 			}
 		}
@@ -429,8 +548,8 @@ static void on_crash(int sig)
 	if (shim_self() >= 0)
 		sched_len += snprintf(sched_buf + sched_len, sizeof(sched_buf) - sched_len, "%s%d", sched_len ? "," : "",
 				      shim_self());
-	n = snprintf(buf, sizeof(buf), "E %s %d %s %s | %s | CRASH:signal-%d %016llx\n", c_id, c_nw, c_prog,
-		     c_fails, sched_buf, sig, (unsigned long long)hash);
+	n = snprintf(buf, sizeof(buf), "%c %s %d %s %s | %s | CRASH:signal-%d %016llx\n", used_fine ? 'P' : 'E', c_id,
+		     c_nw, c_prog, c_fails, sched_buf, sig, (unsigned long long)hash);
 
 	fflush(stdout);
 	if (n > 0 && write(1, buf, (size_t)n) < 0)
@@ -465,6 +584,7 @@ static void run_once(shim_chooser_t ch, void *ud)
 	sched_len = 0;
 	sched_buf[0] = '\0';
 	last_T[0] = '\0';
+	used_fine = 0;
 
 	pool = thread_pool_create((size_t)c_nw, worker_cb);
 	if (pool == NULL) {
@@ -474,8 +594,17 @@ static void run_once(shim_chooser_t ch, void *ud)
 	pool_alive = 1;
 	for (i = 0; i < c_nw; ++i)
 		pool->set_worker_ptr(pool, (size_t)i, &ctxs[i]);
+	{
+		thread_pool_impl_t *p = (thread_pool_impl_t *)pool;
+		pthread_cond_t *conds[2];
+
+		conds[0] = &p->queue_cond;
+		conds[1] = &p->done_cond;
+		shim_guard_set(&p->mtx, conds, 2, pool_snap, NULL);
+	}
 
 	r = shim_run(client, NULL, ch, ud, hook, NULL, 2000);
+	shim_guard_clear();
 
 	if (oracle[0]) {
 		snprintf(verdict, sizeof(verdict), "ORACLE:%s", oracle);
@@ -488,8 +617,15 @@ static void run_once(shim_chooser_t ch, void *ud)
 	} else {
 		snprintf(verdict, sizeof(verdict), "%s", shim_result_name(r));
 	}
-	printf("E %s %d %s %s | %s | %s %016llx\n", c_id, c_nw, c_prog, c_fails, sched_buf, verdict,
-	       (unsigned long long)hash);
+	printf("%c %s %d %s %s | %s | %s %016llx\n", used_fine ? 'P' : 'E', c_id, c_nw, c_prog, c_fails, sched_buf,
+	       verdict, (unsigned long long)hash);
+	if (shim_guard_violation() != NULL) {
+		n_discipline++;
+		if (n_discipline_printed < 8) {
+			n_discipline_printed++;
+			printf("L %s %d %s %s | %s | %s\n", c_id, c_nw, c_prog, c_fails, sched_buf, shim_guard_violation());
+		}
+	}
 	/* a pool whose threads are stuck cannot be destroyed: leaked on purpose */
 }
 
@@ -558,6 +694,7 @@ int main(int argc, char **argv)
 			c_prog[l + 1] = '\0';
 		}
 		parse_fails();
+		n_discipline = n_discipline_printed = 0;
 
 		if (strcmp(mode, "run") == 0) {
 			shim_list_chooser_t lc;
@@ -566,13 +703,14 @@ int main(int argc, char **argv)
 			run_once(shim_list_chooser, &lc);
 		} else if (strcmp(mode, "rand") == 0) {
 			unsigned long long seed = 1;
-			int count = 1, permille = 0, budget = 0, i;
+			int count = 1, permille = 0, budget = 0, fpermille = 0, fbudget = 0, i;
 
-			sscanf(rest, "%llu %d %d %d", &seed, &count, &permille, &budget);
+			sscanf(rest, "%llu %d %d %d %d %d", &seed, &count, &permille, &budget, &fpermille, &fbudget);
 			for (i = 0; i < count; ++i) {
 				shim_random_chooser_t rc;
 
 				shim_random_chooser_init(&rc, seed * 1000003ULL + (unsigned)i, permille, budget);
+				shim_random_chooser_set_fine(&rc, fpermille, fbudget);
 				run_once(shim_random_chooser, &rc);
 			}
 		} else if (strcmp(mode, "dfs") == 0) {
@@ -581,9 +719,10 @@ int main(int argc, char **argv)
 			dfs_bound_p = 2;
 			dfs_bound_s = 0;
 			dfs_cache = 1;
-			sscanf(rest, "%d %d %ld %d", &dfs_bound_p, &dfs_bound_s, &maxexec, &dfs_cache);
+			dfs_bound_f = 0;
+			sscanf(rest, "%d %d %ld %d %d", &dfs_bound_p, &dfs_bound_s, &maxexec, &dfs_cache, &dfs_bound_f);
 			dfs_prefix = 0;
-			dfs_pruned = dfs_states = 0;
+			dfs_pruned = dfs_states = dfs_fine_states = 0;
 			if (dfs_cache) {
 				if (vis == NULL)
 					vis = malloc(sizeof(uint64_t) << VIS_BITS);
@@ -603,8 +742,11 @@ int main(int argc, char **argv)
 				if (!dfs_backtrack())
 					break;
 			}
-			printf("N %s dfs-done execs=%ld states=%ld pruned=%ld\n", c_id, nexec, dfs_states, dfs_pruned);
+			printf("N %s dfs-done execs=%ld states=%ld pruned=%ld fine-states=%ld\n", c_id, nexec, dfs_states,
+			       dfs_pruned, dfs_fine_states);
 		}
+		if (n_discipline)
+			printf("N %s discipline-violations=%ld\n", c_id, n_discipline);
 		fflush(stdout);
 	}
 	return 0;
